@@ -82,6 +82,11 @@ func (a *Act) rootsOf(li *loopInfo, v ssa.Value, visited map[ssa.Value]bool) (ro
 		if b, isB := x.Call.Value.(*ssa.Builtin); isB && b.Name() == "append" {
 			return a.rootsOf(li, x.Call.Args[0], visited) // plus fresh roots
 		}
+		if callee := a.staticCallee(x.Common()); callee != nil {
+			if fc := a.u.E.Contracts[callee]; fc != nil && resultIsFresh(fc) {
+				return nil, true // the contract promises a freshly allocated result
+			}
+		}
 		return nil, false
 	case *ssa.Slice:
 		return a.rootsOf(li, x.X, visited)
@@ -362,7 +367,16 @@ func (a *Act) instrModsS(li *loopInfo, m *modSet, ins ssa.Instruction, depth int
 		}
 	case *ssa.MapUpdate:
 		mt := x.Map.Type().Underlying().(*types.Map)
-		a.mapMods(li, m, x.Map, mt, depth)
+		mv := x.Map
+		d2 := depth
+		if p, ok := mv.(*ssa.Parameter); ok && depth > 0 && subst != nil {
+			if w, ok := subst[p]; ok {
+				if _, still := w.(*ssa.Parameter); !still || w.Parent() == a.fn {
+					mv, d2 = w, 0
+				}
+			}
+		}
+		a.mapMods(li, m, mv, mt, d2)
 	case *ssa.Next:
 		if depth == 0 {
 			m.ranges[x.Iter] = true
@@ -595,6 +609,17 @@ func (a *Act) contractMods(li *loopInfo, m *modSet, callee *ssa.Function, fc *Fu
 			var exact []Term
 			if depth == 0 && li != nil && tg.exact != nil {
 				exact = a.exactTargets(li, callee, com, tg)
+			}
+			// a target rooted in an object that was freshly allocated inside the loop
+			if exact == nil && depth == 0 && li != nil && tg.rootParam >= 0 && tg.rootParam < len(com.Args) {
+				if roots, ok := a.rootsOf(li, com.Args[tg.rootParam], map[ssa.Value]bool{}); ok && tg.underRoot {
+					for _, lh := range tg.heaps {
+						hm := m.heap(lh.name, lh.sort)
+						hm.other = true
+						hm.roots = append(hm.roots, roots...)
+					}
+					continue
+				}
 			}
 			for i, lh := range tg.heaps {
 				hm := m.heap(lh.name, lh.sort)
@@ -1109,4 +1134,30 @@ func (a *Act) isAccumulator(li *loopInfo, phi *ssa.Phi, hm *heapMod) bool {
 		}
 	}
 	return true
+}
+
+// resultIsFresh: the contract has a top-level conjunct fresh(result) in some ensures clause.
+func resultIsFresh(fc *FuncContract) bool {
+	var conj func(e Expr) bool
+	conj = func(e Expr) bool {
+		switch v := e.(type) {
+		case *EBinary:
+			if v.Op == "&&" {
+				return conj(v.X) || conj(v.Y)
+			}
+		case *ECall:
+			if v.Fn == "fresh" && len(v.Args) == 1 {
+				if r, ok := v.Args[0].(*EResult); ok && r.Idx <= 0 {
+					return true
+				}
+			}
+		}
+		return false
+	}
+	for _, cl := range fc.Clauses {
+		if cl.Kind == "ensures" && cl.Expr != nil && conj(cl.Expr) {
+			return true
+		}
+	}
+	return false
 }
